@@ -42,6 +42,11 @@ def directed() -> list[dict[str, Any]]:
     out.append(dict(base, name='midcycle', lifecycle='one_by_one', handlers=[{'kind': 'create', 'id': 'c1'}, {'kind': 'update', 'id': 'u1'},
                {'kind': 'update', 'id': 'u2', 'script': [['temp', 3], ['ok']]}], timeline=[[0, 'start', 'op1'], [1, 'create', 'a', {'spec': {'x': 0}}],
                [5, 'edit', 'a', {'spec': {'x': 1}}], [6.5, 'edit', 'a', {'spec': {'x': 2}}]]))
+    # a daemon that exits on its own (the finalizer is not needed any more) while a change handler still awaits its retry
+    out.append(dict(base, name='daemon-exit-pending-retry', handlers=[{'kind': 'create', 'id': 'c1', 'script': [['arb'], ['ok']], 'opts': {'backoff': 2.0}},
+               {'kind': 'daemon', 'id': 'dm', 'persona': {'type': 'selfexit', 'after': 1.0}}], timeline=[[0, 'start', 'op1'], [1, 'create', 'a', {'spec': {'x': 0}}]]))
+    out.append(dict(base, name='daemon-exit-pending-retry2', handlers=[{'kind': 'create', 'id': 'c1'}, {'kind': 'update', 'id': 'u1', 'script': [['temp', 3], ['ok']]},
+               {'kind': 'daemon', 'id': 'dm', 'persona': {'type': 'selfexit', 'after': 5.5}}], timeline=[[0, 'start', 'op1'], [1, 'create', 'a', {'spec': {'x': 0}}], [4, 'edit', 'a', {'spec': {'x': 1}}]]))
     return out
 
 
@@ -64,6 +69,11 @@ def gen_cases(tier: str, seed: int):
         d['quiet'] = 25.0
         if rng.random() < 0.4:
             add_downtime_edits(rng, d)
+        if rng.random() < 0.3:
+            # background handlers whose coming and going adds/removes the finalizer while change handlers are in progress
+            d['handlers'].append({'kind': 'daemon', 'id': 'dm', 'persona': rng.choice([{'type': 'selfexit', 'after': rng.choice([0.5, 2.0, 5.0])}, {'type': 'obedient'}]),
+                                  'opts': rng.choice([{}, {'labels': {'l': 'v0'}}])})
+            d.setdefault('settings', {})['background__cancellation_polling'] = 2.0
         cases.append({'name': f'rnd{i}', 'desc': d})
     return cases
 
